@@ -2,8 +2,10 @@
 k("C15",
   "Bounded model checking of the real Source/adapter/StreamError code: for every sequence of <=4 items, every single source- or sink-fault position, "
   "all adapter chains up to depth 2 (+3 of depth 3) and both driving modes, CBMC proves the consumer sees exactly the reference prefix and the error "
-  "side/payload is right. Exhaustive inside the bound; nothing is sampled.",
-  "Trusted: Kani/CBMC/cadical, rustc MIR semantics as modelled by Kani. Harness iterator/sink stand for user code. Outside: real parsers as sources, sequences >4.",
+  "side/payload is right; the same for a multi-item-per-step source, for map/filter_map(..).into_iter(), for the Rio adapters over a harness parser, for "
+  "insert_all/remove_all on the real in-memory stores (content checked through secondary indexes) and for NtSerializer with a failing writer. "
+  "Exhaustive inside the bound; nothing is sampled.",
+  "Trusted: Kani/CBMC/cadical, rustc MIR semantics as modelled by Kani; VecDeque and BTreeSet models. Harness iterator/sink/parser stand for user code. Outside: real parsers as sources, sequences >4.",
   "Kani proof harnesses (symbolic items + fault positions) decided by CBMC/SAT; counterexamples replayed natively with cargo kani playback",
   "DESIGN.md 4 C15")
 
@@ -29,8 +31,8 @@ k("C05",
   "DESIGN.md 4 C05")
 
 k("C16",
-  "For each of the five matching iterators and the N-Triples escaper, CBMC decides (recursion unwinding assertion with a per-function recursion bound of 2, "
-  "3 skipped rows / 4 escaped bytes) that the function does not re-enter itself per element; a failure is confirmed natively with 10^6 elements on a 2 MiB "
+  "For each of the five matching iterators and the N-Triples escaper, CBMC decides (recursion unwinding assertion with a per-function recursion bound of 1, "
+  "3 rows skipped at a symbolic residual position / 4 escaped bytes) that the function does not re-enter itself per element; a failure is confirmed natively with 10^6 elements on a 2 MiB "
   "stack in dev and release builds before it is reported. Partial: SPARQL graph_rec, JSON-LD list recursion and Turtle list output are outside.",
   "Trusted: Kani/CBMC; ordered-set model for BTreeSet; the stack itself is only observed in the native replay.",
   "CBMC recursion-unwinding assertion as oracle on Kani harnesses; native 2 MiB-stack replay",
@@ -46,13 +48,14 @@ k("C09",
   "DESIGN.md 4 C09", level="proof")
 
 k("C04",
-  "Partial (abbreviation regexes only). The six patterns that decide when the Turtle pretty-printer writes a bare numeric/boolean literal or a prefixed name are "
-  "extracted from the current source and z3 5.1 decides, for strings of every length, that each language is included in the corresponding Turtle 1.1 terminal "
-  "(INTEGER, DECIMAL, DOUBLE, BOOLEAN, PN_LOCAL, PN_PREFIX): 6 obligations, unsat = proof. Witnesses are replayed through TurtleSerializer + the real parser.",
-  "Trusted: z3 regex theory, regex-syntax subset parser (validated vs the real regex crate each run), grammar transcription. Outside: the pretty-printer's graph "
+  "Partial, mixed. (R, unbounded) the six patterns that decide when the Turtle pretty-printer writes a bare numeric/boolean literal or a prefixed name are extracted from the "
+  "current source and z3 5.1 decides, for strings of every length, that each language is included in the corresponding Turtle 1.1 terminal (6 obligations, unsat). "
+  "(K, bounded) CBMC proves PrefixMap::get_checked_prefixed_pair sound (namespace + suffix = IRI, suffix passes the check) for 4-byte IRIs and two overlapping/unrelated namespaces. "
+  "Witnesses are replayed through TurtleSerializer + the real parser. The weaker (bounded) level is reported.",
+  "Trusted: z3 regex theory, regex-syntax subset parser (validated vs the real regex crate each run), grammar transcription, Kani/CBMC. Outside: the pretty-printer's graph "
   "heuristics (labelled/lists/subject types) and Rio's parser.",
-  "regex -> SMT-LIB RegLan inclusion decided by z3 (unbounded), witnesses replayed through serializer+parser",
-  "DESIGN.md 4 C04", level="proof")
+  "regex -> SMT-LIB RegLan inclusion decided by z3 (unbounded) + Kani/CBMC harness on the prefix-map lookup; witnesses replayed through serializer+parser",
+  "DESIGN.md 4 C04")
 
 k("C03",
   "Split claim. (a) CBMC proves, for every valid UTF-8 string of <=3 (thorough 4) bytes, that quoted_string's output decodes back to the input under a transcription of the "
@@ -66,7 +69,7 @@ k("C08",
   "Partial (the Trusted<T> mechanism only). For each grammar terminal a parser can yield (blank node label, LANGTAG, VARNAME, PN_PREFIX, absolute IRI, IRI reference) z3 5.1 "
   "decides for strings of every length that the terminal's language is included in the toolkit validator's language, so new_unchecked can neither panic under debug "
   "assertions nor wrap an invalid value. Witnesses are replayed through the real nt/turtle/gtrig parsers (dev and release); two documented reference gaps "
-  "(consecutive dots, ':' in N-Triples labels) are assumed away and guarded natively on every run.",
+  "(consecutive dots, ':' in N-Triples labels) are assumed away and guarded natively on every run. A two-variable obligation on prefixed-name expansion is a recorded KNOWN-FINDING.",
   "Trusted: z3, grammar transcriptions, that Rio yields only grammar tokens. Outside: totality/termination/stack of the third-party lexers on arbitrary bytes, RDF/XML, JSON-LD.",
   "regex-language inclusion (grammar terminal ⊆ validator) decided by z3, witnesses replayed through the real parsers",
   "DESIGN.md 4 C08", level="proof")
